@@ -63,7 +63,6 @@ Fixpoint settle (c : cfg) (fuel : nat) (s : st) : st :=
   match fuel with
   | O => s
   | S n =>
-      if all_returned s && negb (serve s) && hs_done s && (if tore s then final s else true) then s else
       match filter (fun l => match step c s l with Some _ => true | None => false end) (helpers s) with
       | [] => s
       | l :: _ => match step c s l with Some s' => settle c n s' | None => s end
